@@ -1,5 +1,6 @@
 import Gen.Marshal
 import Model.MarshalScalar
+import Model.MarshalDecode
 /-!
   Tie theorems between the definitions REGENERATED from /repo/marshal.go by tools/go2lean (`Gen.Marshal`, fixed-width
   BitVec arithmetic as the Go code computes) and the hand-written `Int`/`Nat` model the C02/C12 theorems are about
@@ -579,5 +580,70 @@ theorem encVint_all (n : Int) :
     equals the model's `Marshal.encVint` for every int64 -/
 theorem encVint (n : Int) (hn : -(2:Int)^63 ≤ n ∧ n < (2:Int)^63) :
     (Gen.Marshal.encVint (BitVec.ofInt 64 n)).map UInt8.ofBitVec = Marshal.encVint n := encVint_all n
+
+/-! ### `readCollectionSize` (a struct parameter passed as the field it uses; `error` results as the Bool "non-nil") against
+  the decode model's `Marshal.readCollSize` -/
+
+theorem slt_nat (a b : Nat) (ha : a < 2^63) (hb : b < 2^63) :
+    BitVec.slt (BitVec.ofNat 64 a) (BitVec.ofNat 64 b) = decide (a < b) := by
+  simp only [BitVec.slt, BitVec.toInt_eq_toNat_cond, BitVec.toNat_ofNat]
+  have a' : a % 2^64 = a := Nat.mod_eq_of_lt (by omega)
+  have b' : b % 2^64 = b := Nat.mod_eq_of_lt (by omega)
+  rw [a', b']
+  have : 2 * a < 2^64 := by omega
+  have : 2 * b < 2^64 := by omega
+  simp [*]
+
+theorem shorter_eq {α : Type} (l : List α) (n : Nat) : ValueSpec.shorter l n = decide (l.length < n) := by
+  by_cases h : l.length < n
+  · simp [h, (ValueSpec.shorter_iff l n).mpr h]
+  · have : ValueSpec.shorter l n ≠ true := fun c => h ((ValueSpec.shorter_iff l n).mp c)
+    simp [h, this]
+
+/-- `readCollectionSize(info, data)`: error on a short prefix, else the int32 (protocol > 2) / uint16 size and the number
+    of bytes read -/
+theorem readCollectionSize (p : BitVec 8) (data : List UInt8) (h : data.length < 2^63) :
+    (match Gen.Marshal.readCollectionSize p (data.map (·.toBitVec)) with
+     | (size, read, err) => if err then none else some (size.toInt, data.drop read.toNat))
+      = Marshal.readCollSize p.toNat data := by
+  unfold Gen.Marshal.readCollectionSize Marshal.readCollSize
+  rw [List.length_map, show (0x4#64 : BitVec 64) = BitVec.ofNat 64 4 from rfl, show (0x2#64 : BitVec 64) = BitVec.ofNat 64 2 from rfl,
+    slt_nat _ _ h (by decide), slt_nat _ _ h (by decide), shorter_eq, shorter_eq]
+  have hp : BitVec.ult 0x2#8 p = decide (p.toNat > 2) := by simp [BitVec.ult]
+  rw [hp]
+  by_cases h2 : p.toNat > 2
+  · simp only [h2, decide_true, if_true]
+    by_cases hl : data.length < 4
+    · simp [hl]
+    · obtain ⟨a, b, c, d, r, rfl⟩ : ∃ a b c d r, data = a :: b :: c :: d :: r := by
+        rcases data with _ | ⟨a, _ | ⟨b, _ | ⟨c, _ | ⟨d, r⟩⟩⟩⟩
+        · simp at hl
+        · simp at hl
+        · simp at hl
+        · simp at hl
+        · exact ⟨a, b, c, d, r, rfl⟩
+      have hd := GenTie.C12.decInt [a, b, c, d] (by simp)
+      simp only [Gen.Marshal.decInt, List.map_cons, List.map_nil, List.length_cons, List.length_nil] at hd
+      simp only [hl, decide_false, Bool.false_eq_true, if_false, List.map_cons, List.getD_cons_zero, List.getD_cons_succ]
+      rw [BitVec.toInt_signExtend_of_le (by decide)]
+      simp at hd
+      simp [hd]
+  · simp only [h2, decide_false, Bool.false_eq_true, if_false]
+    by_cases hl : data.length < 2
+    · simp [hl]
+    · obtain ⟨a, b, r, rfl⟩ : ∃ a b r, data = a :: b :: r := by
+        rcases data with _ | ⟨a, _ | ⟨b, r⟩⟩
+        · simp at hl
+        · simp at hl
+        · exact ⟨a, b, r, rfl⟩
+      simp only [hl, decide_false, Bool.false_eq_true, if_false, List.map_cons, List.getD_cons_zero, List.getD_cons_succ]
+      have hb := UInt8.toNat_lt b; have ha := UInt8.toNat_lt a
+      have hv : ((a.toBitVec.setWidth 64 <<< 8) ||| b.toBitVec.setWidth 64).toNat = a.toNat * 256 + b.toNat := by
+        simp only [BitVec.toNat_or, BitVec.toNat_shiftLeft, BitVec.toNat_setWidth, UInt8.toNat_toBitVec]
+        rw [(byte_shl a 8 64 (by decide)).1, byte_mod b 64 (by decide), be2 _ _ hb]
+      have hi : ((a.toBitVec.setWidth 64 <<< 8) ||| b.toBitVec.setWidth 64).toInt = ((a.toNat * 256 + b.toNat : Nat) : Int) := by
+        rw [BitVec.toInt_eq_toNat_cond, hv]; split <;> omega
+      rw [hi]
+      simp [ValueSpec.beNat]
 
 end GenTie.C12
